@@ -51,6 +51,7 @@ class CRepo(Repository):
 ORIG = b'{"chunks":[],"data":{"utc_timestamp":"2020-01-01 00:00:00","files":[]}}'
 BODY = {'chunks': [], 'data': {'utc_timestamp': '2020-01-01 00:00:00', 'files': []}}
 EXPECTED = b'H' + ORIG
+OTHER = b'{"chunks":[],"data":{"utc_timestamp":"2021-02-02 00:00:00","files":[]}}'      # another valid snapshot body
 PATH = 'snapshots/ab/cd-ef'
 
 
@@ -70,6 +71,24 @@ def k1_cache_entry(has_cache: bool, cached: bytes) -> bool:
     with NoTracing():
         tick('k1', None)
     return body == BODY
+
+
+def k5_invalid_cache_wrong_remote(cached: bytes, stored: bytes) -> bool:
+    """An invalid cache entry AND a stored object that is not the snapshot (arbitrary bytes, or another valid snapshot body):
+    the function raises - it never returns content that was not verified against the name.
+    pre: len(cached) <= 2 and (len(stored) <= 2 or stored == OTHER)
+    post: _
+    """
+    repo = _mk(cached, stored)
+    try:
+        body = repo._download_snapshot_threadsafe(PATH, EXPECTED, loop=None)
+    except Exception:
+        with NoTracing():
+            tick('k5', None)
+        return True
+    with NoTracing():
+        tick('k5', None)
+    return False
 
 
 def k3_prefix(p: int) -> bool:
